@@ -50,8 +50,9 @@ pub fn ref_phase64(tm: &Timing, t: f64) -> Phase {
     }
     // Which cycle: instants that are an exact multiple of the cycle (after the first) belong to the
     // *end* of the cycle just completed, so that the 100% value is shown before wrapping.
-    let q = (td / cycle).floor();
-    let r = td - q * cycle;
+    // fmod is exact in IEEE arithmetic; the cycle count is recovered from the exact remainder.
+    let r = td % cycle;
+    let q = ((td - r) / cycle).round();
     let (cyc, ratio) = if r == 0.0 && q >= 1.0 { (q - 1.0, 1.0) } else { (q, r / cycle) };
     let (pos, reversing) = if tm.reverse {
         if ratio > 0.5 {
